@@ -83,3 +83,16 @@ V("bare-no-numargs-guard", "C08", "pyteal/ast/router.py", "                     
 V("never-method-registered", "C08", "pyteal/ast/router.py", "        if method_config.is_never():\n            raise TealInputError(\n                f\"registered method {method_signature} is never executed\"\n            )\n", "", "R08.5")
 V("clear-state-approve-default", "C08", "pyteal/ast/router.py", "            Reject()\n            if clear_state is None", "            Approve()\n            if clear_state is None", "R08.5")
 V("wrap-no-approve", "C08", "pyteal/ast/router.py", "                    return handler if handler.has_return() else Seq(handler, Approve())", "                    return handler", "R08.2")
+
+# ------------------------------------------------------------------------------- C09
+V("decode-index-off-by-one", "C09", "pyteal/ast/router.py", "            app_arg.decode(Txn.application_args[idx + 1])", "            app_arg.decode(Txn.application_args[idx])", "R09.1")
+V("cutoff-slice-one-side", "C09", "pyteal/ast/router.py", "            app_arg_vals = app_arg_vals[: METHOD_ARG_NUM_CUTOFF - 1]", "            app_arg_vals = app_arg_vals[: METHOD_ARG_NUM_CUTOFF]", "R09.1")
+V("cutoff-ge", "C09", "pyteal/ast/router.py", "        tuplify = len(app_arg_vals) > METHOD_ARG_NUM_CUTOFF", "        tuplify = len(app_arg_vals) >= METHOD_ARG_NUM_CUTOFF", "R09.1")
+V("txn-index-plus", "C09", "pyteal/ast/router.py", "                    arg_val._set_index(Txn.group_index() - Int(txn_arg_len - idx))", "                    arg_val._set_index(Txn.group_index() - Int(txn_arg_len - idx - 1))", "R09.1")
+V("txn-type-assert-dropped", "C09", "pyteal/ast/router.py", "                if type(spec) is not abi.TransactionTypeSpec:", "                if type(spec) is abi.TransactionTypeSpec and False:", "R09.1")
+V("frame-index-ignores-output", "C09", "pyteal/ast/router.py", "                arg_val._stored_value = FrameVar(proto, i + index_start_from)", "                arg_val._stored_value = FrameVar(proto, i)", "R09.1")
+V("detuple-wrong-element", "C09", "pyteal/ast/router.py", "                tupled_arg[idx].store_into(arg_val)\n                for idx, arg_val in enumerate(tupled_app_args)", "                tupled_arg[idx].store_into(arg_val)\n                for idx, arg_val in enumerate(reversed(tupled_app_args))", "R09.1")
+V("vanilla-no-method-return", "C09", "pyteal/ast/router.py", "                handler_evald.store_into(output_temp),\n                abi.MethodReturn(output_temp),\n                Approve(),", "                handler_evald.store_into(output_temp),\n                Approve(),", "R09.4")
+V("fp-double-log", "C09", "pyteal/ast/router.py", "                returned_val.store_into(output_temp),\n                abi.MethodReturn(output_temp),\n            ]", "                returned_val.store_into(output_temp),\n                abi.MethodReturn(output_temp),\n                abi.MethodReturn(output_temp),\n            ]", "R09.4")
+V("contract-name-mismatch", "C09", "pyteal/ast/router.py", "            meth.name = overriding_name\n", "            pass\n", "R09.5")
+V("method-return-order", "C09", "pyteal/ast/abi/method_return.py", "Log(Concat(Bytes(RETURN_HASH_PREFIX), self.arg.encode()))", "Log(Concat(self.arg.encode(), Bytes(RETURN_HASH_PREFIX)))", "R09.4")
